@@ -1,6 +1,7 @@
 import SV.Common
 import SV.Shard
 import Driver.TxCacheDrv
+import Driver.ImmunityDrv
 open SV
 
 def tokens (line : String) : List String :=
@@ -50,5 +51,6 @@ def main (args : List String) : IO UInt32 := do
   let stdout ← IO.getStdout
   match args with
   | ["txcache"] => loopState stdin stdout Drv.TxCache.step {}; return 0
+  | ["immunity"] => loopState stdin stdout Drv.Immunity.step {}; return 0
   | ["shard"] => loopStateless stdin stdout shardStep; return 0
   | _ => IO.eprintln "usage: svdriver <component>"; return 2
